@@ -65,6 +65,9 @@ def check(run: Run) -> None:
             add(s2, "corpus:" + lay)
         add(s.replace("\n", "\r"), "corpus:cr")
         add(s.replace("x", "é").replace("a", "ü"), "corpus:nonascii")
+    for s in corpus.invalid_seeds() + [h["src"] for h in corpus.harvested()[::9] if h["mode"] == "exec"]:
+        add(s, "invalid_or_harvested")
+        add(s.replace("\n", "\r\n"), "invalid_or_harvested:crlf")
     traces_tree, traces_err, meta = [], [], {}
     for envname, (env, pyargs) in ENVS.items():
         res = run_ops("c12", [{"src": c["src"]} for c in cases], limit=20.0, batch=100, env_extra=env, pyargs=pyargs)
